@@ -49,6 +49,11 @@ expression may use them too; the driver computes their float values, so the bloc
 module must resolve every name the in-process solver resolves (C20_ResolvesSolverNames, C20_Closed over the
 module's own globals, which the driver reads from the import statements of the written file).
 
+Nameless right-hand sides (sixth follow-up): the parameter line and zero-row equations are spelled as a plain
+literal or as arithmetic on literals only (4/2, (2.0), - 2.0, 3/5, 0.04/4, 0x2, ...), read by other equations; the
+Iterator must evaluate every equation as written (C20_IteratorEvaluatesEquations), whatever the declaration takes
+for the k = 0 value.
+
 Reduction and tolerance (fifth follow-up): the constructor option run_equation_reduction is part of the block
 (reduce): decorative variables (leaves, an unread alias INC = <last>, the injected t = k when unread) are moved
 behind the others but every variable is still solved ONCE (C20_EachVariableOnce, C20_ReductionKeepsEquations).
@@ -103,11 +108,15 @@ CONST_SPELLINGS = ['sqrt(4.0)', 'tanh(0.5) + 1.5', 'sinh(1.0)', 'cosh(0.0) + 1.0
                    'copysign(2.0, 1.0)', 'degrees(pi) / 90.0', 'gamma(3.0)', 'trunc(2.5)', 'max(2.0, 1.0)',
                    'min(2.0, 3.0)', 'abs(-2.0)', 'pow(2.0, 1.0)', 'round(2.2)', 'float(2)', 'sum([1.0, 1.0])',
                    'exp(log(2.0))', 'floor(2.5)', 'fabs(-2.0)']
+# ps = index: a whole right-hand side without any name (the parameter line, zero-row equations); index 0 = the
+# plain literal of the block; the others are arithmetic on literals only (their values differ, the driver evaluates)
+PARAM_SPELLINGS = [None, '4/2', '0.5*4', '(2.0)', '- 2.0', '2*0.3', '3/5', '0.04/4', '1e3/500', '2.0 ** 1', '-(-2.0)',
+                   '0x2', '5 - 3']
 # = TimeWrapReads of MC_Codegen (tw): spellings of the time trend, all equal to t for t >= 0
 TIME_WRAPS = ['t', 'max(t, 0.0)', 'hypot(t, 0.0)', 'abs(t)', 'copysign(t, 1.0)']
 RESERVED_ATTRS = ('MaxIterations', 'MaxTime', 'STEP', 'PrintIterations', 'Err_Tolerance', 'VariableList')
 NAME_FIELDS = ('endo', 'lagged', 'exos', 'ics', 'maxTime', 'foundT', 'reduce')
-GRAMMAR_FIELDS = ('n', 'A', 'lag', 'ic', 'exo', 'cst', 'userT', 'useT', 'tol', 'maxTime', 'nm', 'fn', 'tw', 'red', 'al')
+GRAMMAR_FIELDS = ('n', 'A', 'lag', 'ic', 'exo', 'cst', 'userT', 'useT', 'tol', 'maxTime', 'nm', 'fn', 'tw', 'red', 'al', 'ps')
 REGEN_FRACTION_QUICK = 1.0 / 3.0
 
 
@@ -149,6 +158,9 @@ def system(block):
                     e['const'] = F(eval(e['const_text'], _math_namespace()))   # exactly the float both solvers get
         else:
             e['const'] = F(1)
+            if block.get('ps') and not e['same'] and not (i == n - 1 and block['useT']):
+                e['const_text'] = PARAM_SPELLINGS[block['ps']]        # a whole right-hand side without a name
+                e['const'] = F(eval(e['const_text'], {}))
         if i == n - 1 and block['useT']:
             e['same']['t'] = F(1, 4)
             e['same_text'] = {'t': TIME_WRAPS[block.get('tw', 0)]}
@@ -157,6 +169,9 @@ def system(block):
         eqs['INC'] = {'same': {last: F(1)}, 'lag': {}, 'const': F(0), 'k': F(0), 'const_text': None}
     if block['cst'] == 2:
         eqs[param] = {'same': {}, 'lag': {}, 'const': F(PARAM_VALUE[nm]), 'k': F(0), 'const_text': None}
+        if block.get('ps'):
+            eqs[param]['const_text'] = PARAM_SPELLINGS[block['ps']]
+            eqs[param]['const'] = F(eval(PARAM_SPELLINGS[block['ps']], {}))
     if block['lag'] >= 3:
         # the lagged variable LAG_<last> is itself lagged: its own history matters (LAG_<last>(0) = 0)
         eqs['LAG_' + last] = {'same': {}, 'lag': {last: F(1)}, 'const': F(0), 'k': F(0), 'const_text': None,
@@ -535,13 +550,22 @@ def _lens(obj, names):
     return out
 
 
+def _is_float_literal(text):
+    """what GenerateVarDeclaration recognises as a fixed parameter: float(<right-hand side>) parses"""
+    try:
+        float(text.strip())
+        return True
+    except ValueError:
+        return False
+
+
 def initial_values_ok(block, obj):
     """Conformance only: the k = 0 values the module declares are the ones GenerateVarDeclaration documents
     (a literal constant equation -> that constant, else the initial condition, else 0; exogenous -> the list)."""
     sysm = system(block)
     try:
         for v, e in sysm['eqs'].items():
-            literal = not e['same'] and not e['lag'] and e['k'] == 0 and e['const_text'] is None
+            literal = not e['same'] and not e['lag'] and e['k'] == 0 and _is_float_literal(e['const_text'] or '0.')
             want = float(e['const']) if literal else (10.0 if block['ic'] and v == sysm['last'] else 0.0)
             if list(getattr(obj, v)) != [want]:
                 return False
@@ -815,8 +839,12 @@ def _signature_of_generation(clause, block, want, endo, info):
             and any(not f['resid_ok'] for f in info['flags'].values()):
         return 'no-sweep-performed-every-period-repeats-the-values-of-period-0'
     if clause == 'C20_StepSatisfiesEquations':
+        eqs = system(block)['eqs']
         for k in sorted(info['flags'], key=int):
             if not info['flags'][k]['resid_ok']:
+                bad = set(info['flags'][k]['bad_resid'])
+                if bad and all(v in eqs and not eqs[v]['same'] and not eqs[v]['lag'] and eqs[v]['k'] == 0 for v in bad):
+                    return 'equation-without-any-name-is-not-evaluated'
                 return 'equations-not-satisfied:' + ','.join(sorted(set(info['flags'][k]['bad_resid'])))
         return None
     if clause == 'C20_AgreesWithInProcess':
@@ -960,6 +988,7 @@ def run(rep):
     rep.extra['blocks_with_names_of_generated_locals'] = sum(1 for b in blocks if b['nm'] == 1)
     rep.extra['blocks_with_names_of_the_generated_class'] = sum(1 for b in blocks if b['nm'] == 2)
     rep.extra['blocks_with_a_variable_named_NEW_other_variable'] = sum(1 for b in blocks if b['nm'] == 3 and b['n'] > 1)
+    rep.extra['blocks_with_a_nameless_right_hand_side_spelled_as_arithmetic'] = sum(1 for b in blocks if b['ps'])
     rep.extra['blocks_generated_with_equation_reduction'] = sum(1 for b in blocks if b['red'])
     rep.extra['blocks_with_a_tolerance_of_one_or_more'] = sum(1 for b in blocks if b['tol'] >= 100)
     rep.extra['blocks_with_math_or_builtin_names'] = sum(1 for b in blocks if b['cst'] == 1 or b['tw'] or b['exo'] == 3)
